@@ -4,9 +4,12 @@ import (
 	"fmt"
 	"runtime"
 	"sync"
+	"sync/atomic"
 	"testing"
 	"testing/synctest"
 	"time"
+
+	"github.com/zishang520/engine.io/v2/types"
 )
 
 // ---- family "race": the real scheduler (GOMAXPROCS 8) instead of gates. Application goroutines hammer one session (or
@@ -267,8 +270,70 @@ func raceRegistryScenario(name string, G, M int) Scenario {
 	}}
 }
 
+// raceMapScenario: the container behind the client table under the access pattern of the registry at full speed: every
+// worker stores a fresh key and deletes it again at once, readers miss all the time (misses promote the dirty part), a set
+// of stable keys must stay reachable throughout.
+func raceMapScenario(name string, G, iters int) Scenario {
+	return Scenario{Name: name, NoBubble: true, Run: func(t *testing.T, rec *Rec, g *Gates) {
+		m := &types.Map[string, int]{}
+		const stable = 64
+		for i := 0; i < stable; i++ {
+			m.Store(fmt.Sprintf("stable-%d", i), i)
+		}
+		var lost, wrong, stableMiss atomic.Int64
+		stop := make(chan struct{})
+		var rg, wg sync.WaitGroup
+		for ri := 0; ri < 2; ri++ {
+			rg.Add(1)
+			go func(ri int) {
+				defer rg.Done()
+				for k := 0; ; k++ {
+					select {
+					case <-stop:
+						return
+					default:
+					}
+					m.Load(fmt.Sprintf("nobody-%d-%d", ri, k))
+					if v, ok := m.Load(fmt.Sprintf("stable-%d", k%stable)); !ok || v != k%stable {
+						stableMiss.Add(1)
+					}
+				}
+			}(ri)
+		}
+		for gi := 0; gi < G; gi++ {
+			wg.Add(1)
+			go func(gi int) {
+				defer wg.Done()
+				for k := 0; k < iters; k++ {
+					key := fmt.Sprintf("s-%d-%d", gi, k)
+					m.Store(key, k)
+					if v, ok := m.LoadAndDelete(key); !ok {
+						lost.Add(1)
+					} else if v != k {
+						wrong.Add(1)
+					}
+				}
+			}(gi)
+		}
+		wg.Wait()
+		close(stop)
+		rg.Wait()
+		missing := 0
+		for i := 0; i < stable; i++ {
+			if _, ok := m.Load(fmt.Sprintf("stable-%d", i)); !ok {
+				missing++
+			}
+		}
+		rec.Log("race.map", "ops", G*iters, "lostDeletes", lost.Load(), "wrongValues", wrong.Load(), "stableMissDuring", stableMiss.Load(),
+			"stableMissingAtEnd", missing, "finalLen", m.Len()-stable+missing)
+	}}
+}
+
 func raceFamily(seed int64, n int) []Scenario {
 	var out []Scenario
+	for i := 0; i < max(1, n/3); i++ {
+		out = append(out, raceMapScenario(fmt.Sprintf("racemap%d_%d", seed, i), 6, 60000))
+	}
 	for i := 0; i < n; i++ {
 		kind := []string{"websocket", "webtransport", "polling"}[i%3]
 		out = append(out, raceSendScenario(fmt.Sprintf("racesend%d_%s_%d", seed, kind, i), kind, 8, 400))
